@@ -12,7 +12,7 @@ cp /repo/Cargo.lock $WT/
 if ! git -C $WT apply "$PATCH"; then echo "$NAME: PATCH DOES NOT APPLY"; git -C /repo worktree remove --force $WT; exit 8; fi
 for C in "$@"; do
   T0=$(date +%s)
-  VERIF_REPO=$WT VERIF_EVIDENCE_DIR=/tmp/mw-out/$NAME/evidence VERIF_REPLAY_DIR=/tmp/mw-out/$NAME/replays ${VERIF_SEED:+VERIF_SEED=$VERIF_SEED} /verif/check $C --tier ${TIER:-quick} > /tmp/mw-out/$NAME/$C.out 2>&1
+  VERIF_REPO=$WT VERIF_EVIDENCE_DIR=/tmp/mw-out/$NAME/evidence VERIF_REPLAY_DIR=/tmp/mw-out/$NAME/replays /verif/check $C --tier ${TIER:-quick} > /tmp/mw-out/$NAME/$C.out 2>&1
   RC=$?
   T1=$(date +%s)
   echo "$NAME $C exit=$RC $((T1-T0))s $(grep -m1 -E 'VIOLATION|INCONCLUSIVE|^OK' /tmp/mw-out/$NAME/$C.out | cut -c1-150)"
